@@ -62,7 +62,8 @@ def lean_obligations(pid, thorough=False):
     module = "Chiritori.Props." + pid
     res = {"module": module, "theorems": theorems, "unproved_full_statements": entry.get("unproved", []),
            "obligations": len(theorems), "discharged": 0, "failures": [], "axioms": {}}
-    rc, out = build_lean([module, "chiritori_driver"])
+    extra_mods = sorted({"Chiritori.Props." + t.split(".")[2] for t in theorems if t.startswith("Chiritori.Props.")} - {module})
+    rc, out = build_lean([module, "chiritori_driver"] + extra_mods)
     if rc != 0:
         res["failures"].append({"theorem": "*", "why": "lake build failed", "log": out[-3000:]})
         return res
@@ -75,6 +76,8 @@ def lean_obligations(pid, thorough=False):
     audit = os.path.join(BUILD, "Audit_%s.lean" % pid)
     with open(audit, "w") as f:
         f.write("import %s\n" % module)
+        for m in extra_mods:
+            f.write("import %s\n" % m)
         for t in theorems:
             f.write("#print axioms %s\n" % t)
     rc, out = sh(["lake", "env", "lean", audit], cwd=LEAN)
